@@ -1,5 +1,5 @@
 CFG = dict(
-    n={'quick': 1500, 'thorough': 40000},
+    n={'quick': 5000, 'thorough': 100000},
     oracle=True,
     reference=True,
     corr='Stream.v (wwrite/wclose/read over the toy segment cipher; new_enc_writer/new_dec_reader/dr_read over stdlib oracles) vs noncebased.Writer/Reader, streamingaead/subtle and streamingaead.New on random call histories, faults and manipulations',
